@@ -12,6 +12,7 @@ import (
 	"sync/atomic"
 
 	eventbus "github.com/jilio/ebu"
+	"verif/busmodel"
 	"verif/vkit"
 )
 
@@ -29,6 +30,7 @@ type OverlapCase struct {
 	Publishers []int `json:"publishers"` // events per publisher
 	Procs      int   `json:"procs"`
 	Rounds     int   `json:"rounds"`
+	Ambient    int   `json:"ambient,omitempty"`
 }
 
 type hstate struct {
@@ -92,13 +94,13 @@ func RunOverlap(c *OverlapCase) *vkit.Outcome {
 			return -1
 		}
 		// the after-publish hook of a publish runs after all its synchronous handlers returned
-		bus := eventbus.New(eventbus.WithAfterPublish(func(_ reflect.Type, ev any) {
+		bus := eventbus.New(append(busmodel.Ambient(c.Ambient&^busmodel.AmbLegacyHooks), eventbus.WithAfterPublish(func(_ reflect.Type, ev any) {
 			if e, ok := ev.(Ev); ok {
 				if hi := missing(e.ID); hi >= 0 {
 					early.CompareAndSwap(nil, fmt.Sprintf("the after-publish hook of event %d ran before synchronous Sequential handler %d had handled that event", e.ID, hi))
 				}
 			}
-		}))
+		}))...)
 		for i, h := range c.Handlers {
 			sts[i] = &hstate{sync: !h.Async}
 			subscribeSeq(bus, h, sts[i])
@@ -167,6 +169,7 @@ type OrderCase struct {
 	Between  []int `json:"between"`  // Gosched calls by the publisher between publishes (cyclic)
 	Procs    int   `json:"procs"`
 	UseCtx   bool  `json:"usectx,omitempty"`
+	Ambient  int   `json:"ambient,omitempty"`
 }
 
 func RunOrder(c *OrderCase) *vkit.Outcome {
@@ -174,7 +177,7 @@ func RunOrder(c *OrderCase) *vkit.Outcome {
 	if c.Procs > 0 {
 		defer runtime.GOMAXPROCS(runtime.GOMAXPROCS(c.Procs))
 	}
-	bus := eventbus.New()
+	bus := eventbus.New(busmodel.Ambient(c.Ambient)...)
 	type st struct {
 		mu   sync.Mutex
 		seen []int
